@@ -19,7 +19,14 @@ def run(ctx):
     # B: a cut at b-1,b,b+1 of every structural boundary (head end, chunk edges, body end = prefetch/End(i) cuts)
     tb, nb = h1common.run_h1srv(ctx, drv, cases, b, modes="streaming", idle="inloop" if ctx.quick else "inloop,poller", cuts="bounds",
                                 extra=["-gate", "off"])
-    res = lib.validate(ctx, "H1ServerTrace", "H1ServerTrace.cfg", ta + tb, timeout=1800)
+    # real transports over loopback TCP
+    tn = []
+    nn = 0
+    for kind in (["netpoll"] if ctx.quick else ["netpoll", "standard"]):
+        t, k = h1common.run_h1srv(ctx, drv, cases, ctx.sub("traces_" + kind), modes="streaming", idle="inloop", cuts="whole", extra=["-net", kind])
+        tn += t
+        nn += k
+    res = lib.validate(ctx, "H1ServerTrace", "H1ServerTrace.cfg", ta + tb + tn, timeout=1800)
     lib.handle_rejections(ctx, res, lambda cl: rerun(ctx, cl))
 
     def overread(recs):
@@ -78,8 +85,8 @@ def run(ctx):
     tl = lib.read_lines(ta[0])
     s, e = lib.case_at(tl, 3)
     ctx.cov.update({
-        "evaluations": na + nb, "distinct_nontrivial": partial, "probe_after_partial_read": probed, "exhaustive": False,
-        "traces_validated_against_impl": na + nb, "scripts": n,
+        "evaluations": na + nb + nn, "cases_over_real_tcp_transports": nn, "distinct_nontrivial": partial, "probe_after_partial_read": probed, "exhaustive": False,
+        "traces_validated_against_impl": na + nb + nn, "scripts": n,
         "samples": [{"recorded_trace": [json.loads(x) for x in tl[s - 1:e]][:20]}],
         "rule": "H1StreamGen (TLC): body lengths {0,1,5,17, 8193, 16385 (+thorough set)} x encodings (Content-Length, one chunk, n-1+1, 1-byte chunks, "
                 "255+rest) x consumption programs (EVERY stop point byte-by-byte for small bodies incl. one read past the end, reads of 3, exact/over-long "
